@@ -56,7 +56,7 @@ def spec_to_json(spec):
 
 
 def spec_from_json(j):
-    return (j[0], j[1], {k: (np.array(v) if isinstance(v, list) else v) for k, v in j[2].items()}, j[3], j[4], j[5])
+    return (j[0], j[1], zoo.retype(j[1], {k: (np.array(v) if isinstance(v, list) else v) for k, v in j[2].items()}), j[3], j[4], j[5])
 
 
 def cost(spec):
